@@ -14,8 +14,10 @@ import (
 	"net"
 	"os"
 	"os/exec"
+	"strconv"
 	"strings"
 	"sync"
+	"syscall"
 	"time"
 
 	"raven/internal/delivery/lmtp"
@@ -273,6 +275,40 @@ func child() {
 				}
 			}
 			res = append(res, fmt.Sprintf("%s:%v:%s", st, err != nil, hx.H(o)))
+		case "burst":
+			// more simultaneous connections than the process has descriptors left for: the listener's accept fails for a
+			// while; when the clients are gone the service answers again. With an odd number of free descriptors (one per
+			// side of a connection) at least one connection is waiting for an accept that cannot have its descriptor.
+			bf := strings.Fields(hx.UnH(f[2]))
+			sock := e.saslSock
+			if bf[0] == "lmtp" {
+				sock = e.lmtpSock
+			}
+			room, _ := strconv.Atoi(bf[1])
+			var lim syscall.Rlimit
+			syscall.Getrlimit(syscall.RLIMIT_NOFILE, &lim)
+			ents, _ := os.ReadDir("/proc/self/fd")
+			low := lim
+			low.Cur = uint64(len(ents) - 1 + room) // ReadDir's own descriptor is gone again
+			syscall.Setrlimit(syscall.RLIMIT_NOFILE, &low)
+			var conns []net.Conn
+			refused := 0
+			for i := 0; i < 3*room && refused < 4; i++ {
+				c, err := net.DialTimeout("unix", sock, 300*time.Millisecond)
+				if err != nil {
+					refused++
+					time.Sleep(30 * time.Millisecond)
+					continue
+				}
+				conns = append(conns, c)
+			}
+			time.Sleep(300 * time.Millisecond)
+			for _, c := range conns {
+				c.Close()
+			}
+			syscall.Setrlimit(syscall.RLIMIT_NOFILE, &lim)
+			time.Sleep(300 * time.Millisecond)
+			res = append(res, fmt.Sprintf("held-%d-refused-%d:", len(conns), refused))
 		case "sasl":
 			o, closed, err := talk(e.saslSock, hx.UnH(f[2]), 250*time.Millisecond)
 			res = append(res, fmt.Sprintf("%v:%v:%s", closed, err != nil, hx.H(o)))
@@ -449,6 +485,9 @@ func main() {
 	} else {
 		cases = append(cases, parseCases(hx.ReadLines(o.Corpus+"/cases.ops"))...)
 		cases = append(cases, generate(rng, o.Thorough)...)
+		for _, b := range []string{"sasl 21", "lmtp 21", "sasl 22", "lmtp 22"} {
+			cases = append(cases, kase{kind: "burst", msg: b, class: "descriptor-burst"})
+		}
 	}
 	p, err := startChild()
 	if err != nil {
